@@ -1,0 +1,39 @@
+//! Verification hooks.  Compiled only with `--cfg truth_verif`; add-only re-exports of private
+//! items plus an event log for the scratch register allocator, for use by an external
+//! runtime-monitoring harness.
+
+use std::cell::RefCell;
+
+use crate::diagnostic::RootEmitter;
+use crate::game::{Game, LanguageKey};
+
+pub use crate::bitset::BitSet32;
+pub use crate::image::ColorFormat;
+
+/// The built-in signatures/register types for a language of a game.
+pub fn core_mapfile(emitter: &RootEmitter, game: Game, language: LanguageKey) -> crate::Mapfile {
+    crate::core_mapfiles::core_mapfile(emitter, game, language)
+}
+
+/// Language hooks of the formats that have registers.
+pub fn anm_language_hooks(game: Game) -> Box<dyn crate::llir::LanguageHooks> { crate::formats::anm::verif_language_hooks(game) }
+pub fn olde_ecl_language_hooks(game: Game) -> Box<dyn crate::llir::LanguageHooks> { crate::formats::ecl::ecl_06::verif_language_hooks(game) }
+
+/// An event of the stackless register allocator.
+#[derive(Debug, Clone, PartialEq)]
+pub enum RegEvent {
+    /// Start of one `assign_registers` call.  `pool` is the scratch pool after removing everything the
+    /// compiler considers in use; `explicit` and `params` are what it removed.
+    PoolInit { general_use: Vec<i32>, pool: Vec<i32>, explicit: Vec<i32>, params: Vec<i32> },
+    Alloc { def: String, reg: i32, stmt: usize },
+    Free { def: String, reg: i32, stmt: usize },
+    /// End of the call (Ok or not is visible from what follows).
+    Done,
+}
+
+thread_local! {
+    static REG_EVENTS: RefCell<Vec<RegEvent>> = RefCell::new(vec![]);
+}
+
+pub fn reg_event(ev: RegEvent) { REG_EVENTS.with(|v| v.borrow_mut().push(ev)); }
+pub fn take_reg_events() -> Vec<RegEvent> { REG_EVENTS.with(|v| std::mem::take(&mut *v.borrow_mut())) }
